@@ -156,8 +156,7 @@ def r34_opacity(ctx, chk, rule3="C13.3", rule4="C13.4"):
                 continue
             sides = (t[2], t[3])
             for a, b in (sides, sides[::-1]):
-                lab = any(x[0] == "idx" and x[1][0] == "elem" and x[2] == C(0) for x in C02._sub(a)) and not _under_state_index(a)
-                tgt = _is_target_index(a)
+                lab, tgt = _slots(k, a)
                 if lab and role in ("max", "min"):
                     n3 += 1
                     if t[1] in ("<", "<="):
@@ -176,7 +175,7 @@ def r34_opacity(ctx, chk, rule3="C13.3", rule4="C13.4"):
                                       expected="indices only used as subscripts / in == tests", found=show(t), construct="%s.%s index ordering" % (cls, m))
         # arithmetic on a successor index
         for t in _terms(k):
-            if t[0] in ("add", "mul") and any(_is_target_index(x) for x in t[1]):
+            if t[0] in ("add", "mul") and any(_slots(k, x)[1] for x in t[1]):
                 n4 += 1
                 v4 += 1
                 chk.violation(rule4, f.where(), "%s.%s does arithmetic on a successor index: `%s`" % (cls, m, show(t)),
@@ -254,6 +253,30 @@ def _canary(ctx, chk):
 
 def _under_state_index(t):
     return False
+
+
+def _slots(k, a):
+    """(mentions an action label, is a successor index) for a term over loop elements.  The slots of a loop element mean
+    label / index only when the loop walks transitions: for a loop over values computed from them (zip(S, values), a list
+    of (label, value) pairs) the element is first rewritten in terms of the transition it came from."""
+    lids = {x[1] for x in C02._sub(a) if x[0] == "elem"}
+    if len(lids) != 1:
+        return (any(x[0] == "idx" and x[1][0] == "elem" and x[2] == C(0) for x in C02._sub(a)), _is_target_index(a))
+    lid = next(iter(lids))
+    L = k.sx.loops.get(lid)
+    if L is None or L.source is None:
+        return (False, False)
+    le = k.listexpr(L.source)
+    if le is None:
+        if L.source[0] in ("attr", "v"):
+            return (any(x[0] == "idx" and x[1][0] == "elem" and x[2] == C(0) for x in C02._sub(a)), _is_target_index(a))
+        return (False, False)        # an opaque source: the slots of its elements are not known to be label / index
+    ca = k.canon(a, lid)
+    if le[2] != ("e",):
+        ca = k._rebase(ca, le[2])
+    if le[0] != SELF_NEXT:
+        return (any(x[0] == "idx" and x[1][0] == "elem" and x[2] == C(0) for x in C02._sub(a)), _is_target_index(a)) if le[2] == ("e",) else (False, False)
+    return (any(x == ("p",) for x in C02._sub(ca)), ca == ("t",))
 
 
 def _is_target_index(t):
